@@ -51,6 +51,21 @@ type walker struct {
 	data   map[string]bool // guarded fields (every field that is not the mutex)
 	fns    map[string]bool // identifiers of function-typed parameters (user callbacks)
 	events []event
+	// kv: access class of every method of the guarded field's named type (derived
+	// from its body in kv.go, see classifyFieldType): "read", "write", "bad";
+	// kvFn: the method invokes a function-typed parameter.
+	kv   map[string]string
+	kvFn map[string]bool
+	// lock bookkeeping for exits: number of top-level acquires not yet released by
+	// a top-level release, pending deferred releases of the current body, and
+	// whether the statement being walked is the final top-level statement.
+	held     int
+	deferred []string
+	final    bool
+	// helpers: unexported SafeKV methods whose every use in the package is a call on the
+	// receiver from inside a SafeKV method; a call of one is walked in place (inlined).
+	helpers  map[string]*ast.FuncDecl
+	inlining []string // helpers being inlined (cycle guard; a `return` in them leaves the helper only)
 }
 
 func (w *walker) emit(kind string, n ast.Node, note string) {
@@ -125,7 +140,30 @@ func (w *walker) addFuncParams(ft *ast.FuncType) {
 
 // top walks the top-level statements of a body.
 func (w *walker) top(list []ast.Stmt) {
+	// the deferred releases of THIS body (a returned closure is a body of its own)
+	outer := w.deferred
+	w.deferred = nil
+	defer func() {
+		// `defer s.mu.Unlock()` as a top-level statement: the release happens when the
+		// body is left, after everything else (LIFO among themselves)
+		for i := len(w.deferred) - 1; i >= 0; i-- {
+			w.events = append(w.events, event{kind: w.deferred[i]})
+			w.held--
+		}
+		w.deferred = outer
+	}()
 	for i, s := range list {
+		w.final = i == len(list)-1
+		if d, ok := s.(*ast.DeferStmt); ok {
+			if m, ok := w.muCall(&ast.ExprStmt{X: d.Call}); ok && len(d.Call.Args) == 0 && (m == "Unlock" || m == "RUnlock") {
+				if m == "Unlock" {
+					w.deferred = append(w.deferred, "unlock")
+				} else {
+					w.deferred = append(w.deferred, "runlock")
+				}
+				continue
+			}
+		}
 		if m, ok := w.muCall(s); ok {
 			c := s.(*ast.ExprStmt).X.(*ast.CallExpr)
 			if len(c.Args) != 0 {
@@ -135,12 +173,16 @@ func (w *walker) top(list []ast.Stmt) {
 			switch m {
 			case "RLock":
 				w.emit("rlock", s, "")
+				w.held++
 			case "RUnlock":
 				w.emit("runlock", s, "")
+				w.held--
 			case "Lock":
 				w.emit("lock", s, "")
+				w.held++
 			case "Unlock":
 				w.emit("unlock", s, "")
+				w.held--
 			default:
 				w.bad(s, "mutex method "+m+" is not modelled")
 			}
@@ -167,6 +209,11 @@ func (w *walker) stmts(list []ast.Stmt) {
 
 // stmt walks a statement that is NOT a top-level mutex call, in evaluation order.
 func (w *walker) stmt(s ast.Stmt) {
+	// only the final top-level statement itself is "final", not what it contains
+	final := w.final
+	if _, isRet := s.(*ast.ReturnStmt); !isRet {
+		w.final = false
+	}
 	switch s := s.(type) {
 	case nil:
 	case *ast.ExprStmt:
@@ -252,7 +299,14 @@ func (w *walker) stmt(s ast.Stmt) {
 		for _, r := range s.Results {
 			w.expr(r)
 		}
-	case *ast.BranchStmt, *ast.EmptyStmt:
+		if !final {
+			w.exit(s, "return")
+		}
+	case *ast.BranchStmt:
+		if s.Tok == token.GOTO {
+			w.bad(s, "goto (may jump over a release)")
+		}
+	case *ast.EmptyStmt:
 	case *ast.LabeledStmt:
 		w.stmt(s.Stmt)
 	case *ast.DeferStmt:
@@ -268,6 +322,17 @@ func (w *walker) stmt(s ast.Stmt) {
 		if w.mentionsRecv(s) {
 			w.bad(s, fmt.Sprintf("unmodelled statement %T touches the receiver", s))
 		}
+	}
+}
+
+// exit: the body is left here (early return, explicit panic). With the lock held and
+// no deferred release pending, the lock would stay held for ever.
+func (w *walker) exit(n ast.Node, what string) {
+	if what == "return" && len(w.inlining) > 0 {
+		return // returns to the calling method, the body is not left
+	}
+	if w.held > len(w.deferred) {
+		w.bad(n, what+" while the lock is held and no deferred release is pending (lock leaked)")
 	}
 }
 
@@ -289,9 +354,6 @@ func (w *walker) mentionsRecv(n ast.Node) bool {
 	return found
 }
 
-var kvReadMethods = map[string]bool{"Get": true, "Has": true, "Contains": true, "Len": true, "Keys": true, "Values": true}
-var kvWriteMethods = map[string]bool{"Set": true, "SetNx": true, "SetX": true, "Delete": true}
-
 // expr walks an expression in evaluation order.
 func (w *walker) expr(e ast.Expr) {
 	switch e := e.(type) {
@@ -310,6 +372,10 @@ func (w *walker) expr(e ast.Expr) {
 		}
 		if w.isMu(e) {
 			w.bad(e, "mutex used as a value")
+			return
+		}
+		if w.data[e.Sel.Name] || e.Sel.Name == w.mu {
+			w.bad(e, "field "+e.Sel.Name+" of a value other than the receiver (its lock is not the one held)")
 			return
 		}
 		w.expr(e.X)
@@ -371,19 +437,43 @@ func (w *walker) call(c *ast.CallExpr) {
 		for _, a := range c.Args {
 			w.expr(a)
 		}
-		switch {
-		case kvReadMethods[sel.Sel.Name]:
+		switch w.kv[sel.Sel.Name] {
+		case "read":
 			w.emit("read", c, "")
-		case kvWriteMethods[sel.Sel.Name]:
+		case "write":
 			w.emit("write", c, "")
 		default:
-			w.bad(c, "method "+sel.Sel.Name+" on the guarded field is not classified")
+			w.bad(c, "method "+sel.Sel.Name+" on the guarded field is not classified (not a method of its type, or its body does more than index/len/range/delete on the map)")
+			return
+		}
+		if w.kvFn[sel.Sel.Name] {
+			w.emit("callFn", c, "")
 		}
 		return
 	}
 	// another method of the receiver
 	if sel, ok := fun.(*ast.SelectorExpr); ok {
 		if id, ok := unparen(sel.X).(*ast.Ident); ok && id.Name == w.recv && w.recv != "" {
+			if h := w.helpers[sel.Sel.Name]; h != nil && h.Body != nil && len(w.inlining) < 8 && !contains(w.inlining, sel.Sel.Name) {
+				// unexported helper: arguments first, then its body in place, as nested
+				// statements (a mutex call inside the helper is therefore refused)
+				for _, a := range c.Args {
+					w.expr(a)
+				}
+				savedRecv, savedFns, savedFinal := w.recv, w.fns, w.final
+				w.recv = ""
+				if len(h.Recv.List[0].Names) == 1 {
+					w.recv = h.Recv.List[0].Names[0].Name
+				}
+				w.fns = map[string]bool{}
+				w.addFuncParams(h.Type)
+				w.inlining = append(w.inlining, sel.Sel.Name)
+				w.final = false
+				w.stmts(h.Body.List)
+				w.inlining = w.inlining[:len(w.inlining)-1]
+				w.recv, w.fns, w.final = savedRecv, savedFns, savedFinal
+				return
+			}
 			w.bad(c, "calls "+sel.Sel.Name+" on the receiver (nested locking is not modelled)")
 			return
 		}
@@ -406,6 +496,9 @@ func (w *walker) call(c *ast.CallExpr) {
 		case "make", "append", "cap", "new", "copy", "min", "max", "panic", "print", "println":
 			for _, a := range c.Args {
 				w.expr(a)
+			}
+			if id.Name == "panic" {
+				w.exit(c, "panic")
 			}
 			return
 		}
@@ -437,6 +530,67 @@ func (w *walker) call(c *ast.CallExpr) {
 			w.expr(a)
 		}
 	}
+}
+
+func contains(xs []string, x string) bool {
+	for _, y := range xs {
+		if y == x {
+			return true
+		}
+	}
+	return false
+}
+
+// findHelpers: unexported pointer-receiver methods of SafeKV all of whose uses in the
+// package are calls `recv.name(…)` on the receiver inside a SafeKV method body.
+func findHelpers(files []*ast.File) map[string]*ast.FuncDecl {
+	cands := map[string]*ast.FuncDecl{}
+	isSafeKVMethod := func(fd *ast.FuncDecl) (string, bool) {
+		if fd.Recv == nil || len(fd.Recv.List) != 1 {
+			return "", false
+		}
+		tn, ptr := recvTypeName(fd.Recv.List[0].Type)
+		if tn != "SafeKV" || !ptr || len(fd.Recv.List[0].Names) != 1 {
+			return "", false
+		}
+		return fd.Recv.List[0].Names[0].Name, true
+	}
+	for _, f := range files {
+		for _, d := range f.Decls {
+			if fd, ok := d.(*ast.FuncDecl); ok {
+				if _, ok := isSafeKVMethod(fd); ok && !ast.IsExported(fd.Name.Name) {
+					cands[fd.Name.Name] = fd
+				}
+			}
+		}
+	}
+	for _, f := range files {
+		for _, d := range f.Decls {
+			fd, ok := d.(*ast.FuncDecl)
+			if !ok || fd.Body == nil {
+				continue
+			}
+			recv, inMethod := isSafeKVMethod(fd)
+			okCalls := map[*ast.SelectorExpr]bool{}
+			ast.Inspect(fd.Body, func(x ast.Node) bool {
+				if c, ok := x.(*ast.CallExpr); ok && inMethod {
+					if se, ok := unparen(c.Fun).(*ast.SelectorExpr); ok {
+						if id, ok := unparen(se.X).(*ast.Ident); ok && id.Name == recv {
+							okCalls[se] = true
+						}
+					}
+				}
+				return true
+			})
+			ast.Inspect(fd.Body, func(x ast.Node) bool {
+				if se, ok := x.(*ast.SelectorExpr); ok && cands[se.Sel.Name] != nil && !okCalls[se] {
+					delete(cands, se.Sel.Name) // used some other way: stays a method of its own
+				}
+				return true
+			})
+		}
+	}
+	return cands
 }
 
 func recvTypeName(e ast.Expr) (name string, ptr bool) {
@@ -492,6 +646,7 @@ func extract(repo string) ([]method, error) {
 	// the struct: exactly one sync.RWMutex field; every other field is guarded state
 	mu := ""
 	data := map[string]bool{}
+	dataType := "" // named type of the guarded field (KV), "" if not a named type of this package
 	found := false
 	for _, f := range files {
 		for _, d := range f.Decls {
@@ -527,6 +682,9 @@ func extract(repo string) ([]method, error) {
 							mu = n.Name
 						} else {
 							data[n.Name] = true
+							if tn, _ := recvTypeName(fl.Type); tn != "" {
+								dataType = tn
+							}
 						}
 					}
 				}
@@ -539,20 +697,45 @@ func extract(repo string) ([]method, error) {
 	if mu == "" {
 		return nil, fmt.Errorf("SafeKV has no sync.RWMutex field")
 	}
+	kv, kvFn := classifyFieldType(files, dataType)
+	helpers := findHelpers(files)
 	var ms []method
 	for _, f := range files {
 		for _, d := range f.Decls {
 			fd, ok := d.(*ast.FuncDecl)
-			if !ok || fd.Recv == nil || len(fd.Recv.List) != 1 {
+			if !ok {
 				continue
 			}
-			tn, ptr := recvTypeName(fd.Recv.List[0].Type)
+			tn, ptr := "", false
+			if fd.Recv != nil && len(fd.Recv.List) == 1 {
+				tn, ptr = recvTypeName(fd.Recv.List[0].Type)
+			}
 			if tn != "SafeKV" {
+				// a function (or a method of another type) that reaches into the guarded
+				// field or the mutex of some SafeKV value: outside every method body, so
+				// no lock discipline can be established for it
+				if fd.Body != nil {
+					var hit *ast.SelectorExpr
+					ast.Inspect(fd.Body, func(x ast.Node) bool {
+						if se, ok := x.(*ast.SelectorExpr); ok && hit == nil && (data[se.Sel.Name] || se.Sel.Name == mu) {
+							hit = se
+						}
+						return hit == nil
+					})
+					if hit != nil {
+						pos := fset.Position(fd.Pos())
+						ms = append(ms, method{name: "func " + fd.Name.Name, file: filepath.Base(pos.Filename), line: pos.Line,
+							events: []event{{kind: "bad", note: "a function that is not a SafeKV method uses the field " + hit.Sel.Name, pos: fset.Position(hit.Pos())}}})
+					}
+				}
 				continue
 			}
 			pos := fset.Position(fd.Pos())
 			m := method{name: fd.Name.Name, file: filepath.Base(pos.Filename), line: pos.Line}
-			w := &walker{fset: fset, mu: mu, data: data, fns: map[string]bool{}}
+			if helpers[fd.Name.Name] != nil {
+				continue // only reachable through its callers, where it is walked in place
+			}
+			w := &walker{fset: fset, mu: mu, data: data, fns: map[string]bool{}, kv: kv, kvFn: kvFn, helpers: helpers}
 			if len(fd.Recv.List[0].Names) == 1 {
 				w.recv = fd.Recv.List[0].Names[0].Name
 			}
@@ -571,6 +754,120 @@ func extract(repo string) ([]method, error) {
 		return nil, fmt.Errorf("no SafeKV method found")
 	}
 	return ms, nil
+}
+
+// classifyFieldType derives, from the bodies in kv.go, how each method of the guarded
+// field's named type (KV, a map type with value-receiver methods) accesses the map:
+//
+//	"read"   only m[k] (as a value), len(m), range m
+//	"write"  also m[k] = …, m[k]++, delete(m, …), clear(m)
+//	"bad"    the map is used in any other way (passed on, returned, re-assigned, captured
+//	         by a closure, a call of another method on it)
+//
+// and whether the method invokes one of its function-typed parameters (then the
+// delegating SafeKV method contains a user callback: event callFn).
+func classifyFieldType(files []*ast.File, typeName string) (map[string]string, map[string]bool) {
+	class := map[string]string{}
+	callsFn := map[string]bool{}
+	if typeName == "" {
+		return class, callsFn
+	}
+	for _, f := range files {
+		for _, d := range f.Decls {
+			fd, ok := d.(*ast.FuncDecl)
+			if !ok || fd.Recv == nil || len(fd.Recv.List) != 1 || fd.Body == nil {
+				continue
+			}
+			tn, ptr := recvTypeName(fd.Recv.List[0].Type)
+			if tn != typeName {
+				continue
+			}
+			name := fd.Name.Name
+			if ptr || len(fd.Recv.List[0].Names) != 1 {
+				class[name] = "bad"
+				continue
+			}
+			m := fd.Recv.List[0].Names[0].Name
+			isM := func(e ast.Expr) (*ast.Ident, bool) {
+				id, ok := unparen(e).(*ast.Ident)
+				return id, ok && id.Name == m
+			}
+			fns := map[string]bool{}
+			if fd.Type.Params != nil {
+				for _, p := range fd.Type.Params.List {
+					if _, ok := p.Type.(*ast.FuncType); ok {
+						for _, n := range p.Names {
+							fns[n.Name] = true
+						}
+					}
+				}
+			}
+			accounted := map[*ast.Ident]bool{}
+			kind := "read"
+			ast.Inspect(fd.Body, func(x ast.Node) bool {
+				switch x := x.(type) {
+				case *ast.FuncLit:
+					// a closure over the map outlives nothing we can see: refuse below
+					// (any use of m inside stays unaccounted)
+					return false
+				case *ast.AssignStmt:
+					for _, l := range x.Lhs {
+						if ix, ok := unparen(l).(*ast.IndexExpr); ok {
+							if id, ok := isM(ix.X); ok {
+								accounted[id] = true
+								kind = "write"
+							}
+						}
+					}
+				case *ast.IncDecStmt:
+					if ix, ok := unparen(x.X).(*ast.IndexExpr); ok {
+						if id, ok := isM(ix.X); ok {
+							accounted[id] = true
+							kind = "write"
+						}
+					}
+				case *ast.IndexExpr:
+					if id, ok := isM(x.X); ok {
+						accounted[id] = true
+					}
+				case *ast.RangeStmt:
+					if id, ok := isM(x.X); ok {
+						accounted[id] = true
+					}
+				case *ast.CallExpr:
+					if id, ok := unparen(x.Fun).(*ast.Ident); ok {
+						switch id.Name {
+						case "len":
+							if len(x.Args) == 1 {
+								if a, ok := isM(x.Args[0]); ok {
+									accounted[a] = true
+								}
+							}
+						case "delete", "clear":
+							if len(x.Args) >= 1 {
+								if a, ok := isM(x.Args[0]); ok {
+									accounted[a] = true
+									kind = "write"
+								}
+							}
+						}
+						if fns[id.Name] {
+							callsFn[name] = true
+						}
+					}
+				}
+				return true
+			})
+			ast.Inspect(fd.Body, func(x ast.Node) bool {
+				if id, ok := x.(*ast.Ident); ok && id.Name == m && !accounted[id] {
+					kind = "bad"
+				}
+				return true
+			})
+			class[name] = kind
+		}
+	}
+	return class, callsFn
 }
 
 // Facts renders lean/Golib/Gen/FactsC12.lean.
